@@ -1288,6 +1288,9 @@ func (c *Context) Pow(d, x, y *Decimal) (Condition, error) {
 	ed.Mul(&tmp, z, &tmp)
 
 	if err := ed.Err(); err != nil {
+		// As for a failed integer power: without this the destination holds
+		// x**integ(y), or is untouched when it is also the operand.
+		d.Set(decimalNaN)
 		return ed.Flags, err
 	}
 	res |= c.round(d, &tmp)
